@@ -3,6 +3,8 @@ package model
 import (
 	"strconv"
 	"strings"
+
+	"github.com/tidwall/tile38/verif/harness/t38"
 )
 
 // Exec applies a command (as an argument vector in the documented grammar) to
@@ -281,6 +283,52 @@ func Exec(db *DB, args []string) Reply {
 			return un
 		}
 		return db.Jdel(a[0], a[1], a[2])
+	case "sethook", "setchan":
+		// SETHOOK name endpoints <NEARBY|WITHIN|INTERSECTS> key ... FENCE ... ; SETCHAN name <...>
+		// (no META/EX in the modelled shape). Only the name -> (key, kind, definition) map is modelled.
+		isChan := cmd == "setchan"
+		min := 5
+		if isChan {
+			min = 4
+		}
+		if len(a) < min {
+			return un
+		}
+		rest := a[1:]
+		if !isChan {
+			rest = a[2:]
+		}
+		switch strings.ToLower(rest[0]) {
+		case "nearby", "within", "intersects":
+		default:
+			return un
+		}
+		name, key := a[0], rest[1]
+		def := strings.Join(a, "\x00")
+		if prev, ok := db.HookKeys[name]; ok {
+			if prev.Channel != isChan {
+				return errReply(cmd, "hooks and channels cannot share the same name")
+			}
+			if prev.Def == def {
+				return okReply(t38.Int(0))
+			}
+		}
+		db.HookKeys[name] = HookRef{Key: key, Channel: isChan, Def: def}
+		r := okReply(t38.Int(1))
+		r.Mutated = true
+		return r
+	case "delhook", "delchan":
+		if len(a) != 1 {
+			return un
+		}
+		isChan := cmd == "delchan"
+		if prev, ok := db.HookKeys[a[0]]; ok && prev.Channel == isChan {
+			delete(db.HookKeys, a[0])
+			r := okReply(t38.Int(1))
+			r.Mutated = true
+			return r
+		}
+		return okReply(t38.Int(0))
 	}
 	return un
 }
